@@ -62,6 +62,8 @@ func runC12(c *Config, r *Report) {
 	c12R22(ic, r)
 	c12R23to25(ic, r)
 	c12R26to30(ic, r)
+	c12R35(ic, r)
+	c12R36(ic, r)
 	{
 		// R12.31 = R01.37 (b), (c): break and continue outside of a loop of the same function are rejected
 		sub := newReport("C01")
